@@ -99,7 +99,7 @@ class ExtendedEOF(EOF):
         self.pca = (
             EOF(
                 n_modes=n_pca_modes,
-                center=True,
+                center=center,
                 standardize=False,
                 use_coslat=False,
                 compute=self._params["compute"],
@@ -139,7 +139,7 @@ class ExtendedEOF(EOF):
         n_modes = self._params["n_modes"]
         model = EOF(
             n_modes=n_modes,
-            center=True,
+            center=self._params["center"],
             standardize=False,
             use_coslat=False,
             compute=self._params["compute"],
